@@ -87,6 +87,36 @@ impl SearchResult {
     }
 }
 
+/// Does the goal condition hold in `facts`?
+///
+/// A goal is written as text, and a whole-number literal in it (`X == 5`) does not say whether the
+/// fact holds an integer or a float; `==` on values is type-strict. Such a literal is therefore
+/// compared both ways: `==` holds if either typing is equal, `!=` only if both differ.
+fn goal_condition_holds(
+    executor: &RuleExecutor,
+    condition: &crate::engine::rule::Condition,
+    facts: &Facts,
+) -> bool {
+    use crate::types::Operator;
+
+    let holds = |c: &crate::engine::rule::Condition| {
+        executor.evaluate_condition(c, facts).unwrap_or(false)
+    };
+    if let Value::Number(n) = condition.value {
+        let whole = n.fract() == 0.0 && n.abs() < 9.0e15;
+        if whole && matches!(condition.operator, Operator::Equal | Operator::NotEqual) {
+            let mut as_integer = condition.clone();
+            as_integer.value = Value::Integer(n as i64);
+            return if condition.operator == Operator::Equal {
+                holds(condition) || holds(&as_integer)
+            } else {
+                holds(condition) && holds(&as_integer)
+            };
+        }
+    }
+    holds(condition)
+}
+
 /// Copy of `text` in which the contents of string literals are replaced by `_` (same byte length),
 /// so that operator characters inside a literal are not mistaken for operators.
 fn mask_quoted(text: &str) -> String {
@@ -481,9 +511,7 @@ impl DepthFirstSearch {
         // Parse goal pattern into a Condition and use ConditionEvaluator
         if let Some(condition) = self.parse_goal_pattern(&goal.pattern) {
             // Use RuleExecutor's evaluator (which delegates to ConditionEvaluator)
-            self.executor
-                .evaluate_condition(&condition, facts)
-                .unwrap_or(false)
+            goal_condition_holds(&self.executor, &condition, facts)
         } else {
             false
         }
@@ -1083,9 +1111,7 @@ impl BreadthFirstSearch {
         // Parse goal pattern into a Condition and use ConditionEvaluator
         if let Some(condition) = self.parse_goal_pattern(&goal.pattern) {
             // Use RuleExecutor's evaluator (which delegates to ConditionEvaluator)
-            self.executor
-                .evaluate_condition(&condition, facts)
-                .unwrap_or(false)
+            goal_condition_holds(&self.executor, &condition, facts)
         } else {
             false
         }
